@@ -163,7 +163,11 @@ theorem ignClosure_iff (g : Graph) (defs : Name → TaskDef) (marks : List Name)
             rcases List.mem_append.1 hd with h2 | h2
             · unfold Graph.WF at hwf
               have := List.all_eq_true.1 hwf t ht
-              have := List.all_eq_true.1 this d (by unfold Graph.succs; exact List.mem_append_left _ h2)
+              have := List.all_eq_true.1 this d (by
+                unfold Graph.succs
+                rcases List.mem_append.1 h2 with h3 | h3
+                · exact List.mem_append_left _ (List.mem_append_left _ h3)
+                · exact List.mem_append_right _ h3)
               simpa using this
             · unfold implicitDeps at h2
               exact (List.mem_filter.1 h2).1
